@@ -11,7 +11,7 @@
    definition).  Which locations the Go code really touches is therefore asserted, and sampled by
    the -race stage of the check (harness/cmd/c16); see checks/C16.py "assumptions".
 
-   Definitions only; proofs are in Proofs.v / Once.v. *)
+   Definitions only; proofs are in Proofs.v / Locks.v / Once.v. *)
 From Coq Require Import List Arith NArith Bool.
 Import ListNotations.
 
@@ -31,13 +31,13 @@ Inductive ploc :=
 
 Inductive loc :=
 | LProg (p : N) (f : ploc)
-| LImpS (s : N) | LImpU (s : N) | LImpScanned (s : N)   (* string_imported.go:24 importedString{s,u,scanned} *)
+| LImpS (s : N) | LImpU (s : N) | LImpScanned (s : N)   (* string_imported.go:27 importedString{s,u,scanned,...} *)
 | LStrData (s : N)            (* content of an asciiString / unicodeString (immutable Go string / []uint16) *)
 | LSymDesc (y : N)            (* value.go:119 Symbol.desc *)
 | LIntCache                   (* value.go:60 intCache, filled by init() value.go:1194 *)
 | LPkgHasher                  (* value.go:18 pkgHasher: package init only *)
 | LHashConst                  (* value.go:20-23 hashFalse/hashTrue/hashNull/hashUndef *)
-| LOnceDone (s : N)           (* the done flag of a once protocol (fix models only) *)
+| LOnceDone (s : N)           (* importedString.scanDone (atomic.Uint32, string_imported.go:34); the mutex scanMu is mutex [s] *)
 | LRt (r : nat) (x : N).      (* anything owned by Runtime r / goroutine r: vm registers, stack, stashes,
                                  heap objects, the CLONED regexp pattern, the runtime's maphash.Hash, ... *)
 
@@ -133,7 +133,7 @@ Definition holds (tr : trace) (t : nat) (m : N) (i : nat) : Prop :=
    read of a flag sees [true] iff some write to it precedes in the trace (flags start false and are
    only ever set to true). This is what makes an operation take the branch its event list belongs to. *)
 Definition is_flag (l : loc) : bool :=
-  match l with LImpScanned _ | LOnceDone _ => true | _ => false end.
+  match l with LOnceDone _ => true | _ => false end.
 Definition writes_loc (l : loc) (p : tev) : bool :=
   match snd p with Acc k l' _ => is_write k && loc_eqb l l' | _ => false end.
 Definition consistent (tr : trace) : Prop :=
@@ -166,16 +166,18 @@ Inductive vop :=
                                   the clone and the RegExp object are the runtime's *)
 | ORegexExec (site : N)        (* exec/test/replace on the CLONE: lazily createRegexp2 (regexp.go:111-120) and the
                                   regexp2 match cache are written in the clone, i.e. runtime-owned *)
-| OTaggedTmpl (site : N)       (* vm.go:5326 getTaggedTmplObject.exec: setArrayValues(cooked, c.cooked)
-                                  (builtin_array.go:26) ALIASES the Program's slices; idPtr = &c.raw only compared *)
-| OTmplRead (site : N) (raw : bool) (i : N)   (* script reads strings[i] / strings.raw[i]: slice + cell read *)
+| OTaggedTmpl (site : N) (n : N)
+                               (* vm.go:5361 getTaggedTmplObject.exec: copyTaggedTmplValues (vm.go:5351) COPIES the
+                                  Program's raw/cooked slices and every *valueProperty cell into fresh runtime memory
+                                  (fix 34e62dd of finding C16-N1); idPtr = &c.raw is only compared *)
+| OTmplRead (site : N) (raw : bool) (i : N)   (* script reads strings[i] / strings.raw[i]: the runtime's copies *)
 | OTmplWriteAttempt (site : N) (raw : bool) (i : N)
-                               (* strings[i] = x, delete, length = 0, sort ...: the cell is read, found
-                                  non-writable/non-configurable, rejected: no write *)
+                               (* strings[i] = x, delete, length = 0, sort ...: the (copied) cell is read, found
+                                  non-writable/non-configurable, rejected *)
 | OTmplRedefine (site : N) (raw : bool) (i : N)
-                               (* Object.defineProperty(strings, i, {value: strings[i]}) / Object.freeze(strings):
-                                  a PERMITTED no-op redefinition: object.go:709-745 stores into the existing (shared)
-                                  *valueProperty and array.go:435 stores it back into the (shared) slice — finding C16-N1 *)
+                               (* Object.defineProperty(strings, i, {value: strings[i]}) / Object.freeze / Object.seal:
+                                  a permitted no-op redefinition: object.go:709-745 stores into the existing cell and
+                                  array.go:435 stores it back into the slice — both are the runtime's copies now *)
 | OEnterBlock (site : N)       (* vm.go:3660/3684: vm.stash.names = e.names (shared map, only read afterwards) *)
 | OEnterFunc (site : N) (extensible : bool)
                                (* vm.go:3747-3757 (also 3817, 3864): the names map is COPIED when the scope is dynamic
@@ -196,12 +198,13 @@ Definition ev_vop (r : nat) (p : N) (o : vop) : list event :=
   | OLoadLit s => [Rd (P (PLiteral s)); Wr (LRt r 1)]
   | ONewRegexp s => [Rd (P (PRegexPattern s)); Rd (P (PLiteral s)); Wr (LRt r 2); Wr (LRt r 1)]
   | ORegexExec s => [Rd (LRt r 2); Wr (LRt r 2)]
-  | OTaggedTmpl s => [Rd (P (PTmplSlice s false)); Rd (P (PTmplSlice s true)); Wr (LRt r 3); Wr (LRt r 1)]
-  | OTmplRead s raw i => [Rd (LRt r 3); Rd (P (PTmplSlice s raw)); Rd (P (PTmplCell s raw i)); Wr (LRt r 1)]
-  | OTmplWriteAttempt s raw i => [Rd (LRt r 3); Rd (P (PTmplSlice s raw)); Rd (P (PTmplCell s raw i))]
-  | OTmplRedefine s raw i =>
-      [Rd (LRt r 3); Rd (P (PTmplSlice s raw)); Rd (P (PTmplCell s raw i));
-       Wr (P (PTmplCell s raw i)); Wr (P (PTmplSlice s raw))]
+  | OTaggedTmpl s n =>
+      [Rd (P (PTmplSlice s false)); Rd (P (PTmplSlice s true))] ++
+      flat_map (fun i => [Rd (P (PTmplCell s false i)); Rd (P (PTmplCell s true i))]) (map N.of_nat (seq 0 (N.to_nat n))) ++
+      [Wr (LRt r 3); Wr (LRt r 1)]
+  | OTmplRead s raw i => [Rd (LRt r 3); Wr (LRt r 1)]
+  | OTmplWriteAttempt s raw i => [Rd (LRt r 3)]
+  | OTmplRedefine s raw i => [Rd (LRt r 3); Wr (LRt r 3)]
   | OEnterBlock s => [Rd (P (PNames s)); Wr (LRt r 4)]
   | OEnterFunc s ext => [Rd (P (PNames s)); Wr (LRt r 4)]
   | OLookupName s => [Rd (LRt r 4); Rd (P (PNames s))]
@@ -214,9 +217,6 @@ Definition ev_vop (r : nat) (p : N) (o : vop) : list event :=
 
 Definition events_of_run (r : nat) (p : N) (ops : list vop) : list event :=
   flat_map (ev_vop r p) ops.
-
-(* every step except the redefinition of a template cell (open finding C16-N1) *)
-Definition vop_ok (o : vop) : bool := match o with OTmplRedefine _ _ _ => false | _ => true end.
 
 (* ------------------------------------------------------------------------------------------ *)
 (* Primitive values used by several runtimes                                                  *)
@@ -256,72 +256,90 @@ Definition events_of_prims (r : nat) (uses : list (pval * pop)) : list event :=
   flat_map (fun u => ev_pop r (fst u) (snd u)) uses.
 
 (* ------------------------------------------------------------------------------------------ *)
-(* importedString (string_imported.go), CURRENT code                                          *)
+(* importedString (string_imported.go after fix 17789cc of finding F14)                       *)
 
-(* ensureScanned (line 36): read [scanned]; if false, scan (line 31): read s, write u, write scanned.
-   The branch taken is recorded in the flag value of the read event. *)
-Definition ev_ensure_scanned (s : N) (seen : bool) : list event :=
-  if seen then [Acc KRd (LImpScanned s) true]
-  else [Acc KRd (LImpScanned s) false; Rd (LImpS s); Wr (LImpU s); Acc KWr (LImpScanned s) true].
+(* isScanned (line 54): scanDone.Load().  scan (line 44): scanMu.Lock(); if scanDone.Load()==0 { u = Scan(s);
+   scanned = true; scanDone.Store(1) }; scanMu.Unlock().  ensureScanned (line 58): if !isScanned() { scan() }.
+   The three ways through ensureScanned; the branch taken is recorded in the flag values of the atomic loads. *)
+Inductive once_path := OnceFast | OnceSlowNoop | OnceSlowScan.
+Definition ev_ensure (s : N) (w : once_path) : list event :=
+  let D := LOnceDone s in
+  match w with
+  | OnceFast => [Acc KARd D true]
+  | OnceSlowNoop => [Acc KARd D false; Lock s; Acc KARd D true; Unlock s]
+  | OnceSlowScan => [Acc KARd D false; Lock s; Acc KARd D false; Rd (LImpS s); Wr (LImpU s);
+                     Acc KWr (LImpScanned s) true; Acc KAWr D true; Unlock s]
+  end.
 
 Inductive imethod :=
-| IEnsureThenU      (* ToInteger 42, string 55, ToFloat 71, ToNumber 79, baseObject 135, hash 143, CharAt 151,
-                       Length 159, Substring 183, CompareTo 191, utf16Runes 268, index 276, lastIndex 284,
-                       toLower 292, toUpper 300: ensureScanned(); read u; then u or s *)
-| IReadSOnly        (* String 67, ToBoolean 87, Export 127, toTrimmedUTF8 309, toString/ToString/ToObject/ExportType *)
-| IStrictEqAscii    (* StrictEquals 110-116 with an asciiString: reads u WITHOUT ensureScanned, then s *)
-| IStrictEqUnicode  (* StrictEquals 117-121: ensureScanned; read u *)
-| IStrictEqImported (o : N)   (* 122-123: i.s == other.s *)
-| IEquals           (* Equals 99-108: StrictEquals(ascii case shown) then ensureScanned; read u; s *)
-| IConcatImported (o : N) (oseen : bool)
-                    (* Concat 167-181 with an importedString argument: read scanned; if false read other.scanned;
-                       both unscanned: s + other.s; otherwise ensureScanned; read u; s *)
-| IConcatOther      (* Concat with a non-imported argument *)
-| IReader.          (* Reader 199, utf16Reader 245, utf16RuneReader 257: read scanned; if set read u, s else s *)
+| IEnsureThenU (w : once_path)
+                    (* ToInteger 64, string 76, ToFloat 92, ToNumber 100, baseObject 163, hash 171, CharAt 179,
+                       Length 187, Substring 214, CompareTo 222, utf16Runes 300, index 308, lastIndex 316,
+                       toLower 324, toUpper 332; devirtualizeString string.go:324, unicodeString.StrictEquals
+                       string_unicode.go:456, concatStrings vm.go:5298: ensureScanned(); read u; then u or s *)
+| IReadSOnly        (* String 88, ToBoolean 108, Export 155, toTrimmedUTF8 341, toString/ToString/ToObject/ExportType *)
+| IStrictEqAscii (seen : bool)
+                    (* StrictEquals 133-137 with an asciiString; asciiString.StrictEquals string_ascii.go:335;
+                       builtin_string.go:473: isScanned() && u ...: u is read only when the flag was seen set *)
+| IStrictEqUnicode (w : once_path)   (* StrictEquals 138-142: ensureScanned; read u *)
+| IStrictEqImported (o : N) (same_bytes : bool) (w wo : once_path)
+                    (* 143-150: i.s == other.s; otherwise both are scanned and the u's compared *)
+| IEquals (seen : bool) (w : once_path)
+                    (* Equals 120-129: StrictEquals (ascii case shown) then ensureScanned; read u; s *)
+| IConcatImported (o : N) (seen oseen joined : bool) (w : once_path)
+                    (* Concat 195-212 with an importedString argument: isScanned(); if not, other.isScanned(); both
+                       unscanned: DecodeLastRune(s) and possibly s + other.s; otherwise ensureScanned; read u; s *)
+| IConcatOther (seen : bool) (w : once_path)    (* Concat with a non-imported argument *)
+| IReader (seen : bool).
+                    (* Reader 230, utf16Reader 276, utf16RuneReader 288: isScanned(); if set read u, s else s *)
 
-Definition ev_imethod (s : N) (m : imethod) (seen : bool) : list event :=
+Definition ev_imethod (s : N) (m : imethod) : list event :=
   let after := [Rd (LImpU s); Rd (LImpS s)] in
+  let isScanned x v := Acc KARd (LOnceDone x) v in
   match m with
-  | IEnsureThenU => ev_ensure_scanned s seen ++ after
+  | IEnsureThenU w => ev_ensure s w ++ after
   | IReadSOnly => [Rd (LImpS s)]
-  | IStrictEqAscii => [Rd (LImpU s); Rd (LImpS s)]
-  | IStrictEqUnicode => ev_ensure_scanned s seen ++ [Rd (LImpU s)]
-  | IStrictEqImported o => [Rd (LImpS s); Rd (LImpS o)]
-  | IEquals => [Rd (LImpU s); Rd (LImpS s)] ++ ev_ensure_scanned s seen ++ after
-  | IConcatImported o oseen =>
-      if seen then [Acc KRd (LImpScanned s) true] ++ after
+  | IStrictEqAscii seen => isScanned s seen :: (if seen then [Rd (LImpU s)] else []) ++ [Rd (LImpS s)]
+  | IStrictEqUnicode w => ev_ensure s w ++ [Rd (LImpU s)]
+  | IStrictEqImported o same w wo =>
+      [Rd (LImpS s); Rd (LImpS o)] ++
+      (if same then [] else ev_ensure s w ++ ev_ensure o wo ++ [Rd (LImpU s); Rd (LImpU o)])
+  | IEquals seen w =>
+      isScanned s seen :: (if seen then [Rd (LImpU s)] else []) ++ [Rd (LImpS s)] ++ ev_ensure s w ++ after
+  | IConcatImported o seen oseen joined w =>
+      if seen then isScanned s true :: after
       else if oseen
-           then [Acc KRd (LImpScanned s) false; Acc KRd (LImpScanned o) true] ++ ev_ensure_scanned s false ++ after
-           else [Acc KRd (LImpScanned s) false; Acc KRd (LImpScanned o) false; Rd (LImpS s); Rd (LImpS o)]
-  | IConcatOther =>
-      if seen then [Acc KRd (LImpScanned s) true] ++ after
-      else [Acc KRd (LImpScanned s) false] ++ ev_ensure_scanned s false ++ after
-  | IReader =>
-      if seen then [Acc KRd (LImpScanned s) true; Rd (LImpU s); Rd (LImpS s)]
-      else [Acc KRd (LImpScanned s) false; Rd (LImpS s)]
+           then [isScanned s false; isScanned o true] ++ ev_ensure s w ++ after
+           else [isScanned s false; isScanned o false; Rd (LImpS s)] ++
+                (if joined then [Rd (LImpS s); Rd (LImpS o)] else ev_ensure s w ++ after)
+  | IConcatOther seen w =>
+      if seen then isScanned s true :: after
+      else isScanned s false :: ev_ensure s w ++ after
+  | IReader seen =>
+      if seen then [isScanned s true; Rd (LImpU s); Rd (LImpS s)]
+      else [isScanned s false; Rd (LImpS s)]
   end.
 
-(* Length() as executed by a goroutine that found the string unscanned / scanned *)
-Definition ev_length (s : N) (seen : bool) : list event := ev_imethod s IEnsureThenU seen.
+(* a goroutine uses imported strings through any sequence of method calls *)
+Definition events_of_imported (calls : list (N * imethod)) : list event :=
+  flat_map (fun c => ev_imethod (fst c) (snd c)) calls.
 
-(* ---- what a fix must achieve ------------------------------------------------------------- *)
+(* ------------------------------------------------------------------------------------------ *)
+(* Everything a goroutine with its own Runtime r may do with shared values                    *)
 
-(* (a) every method body under one mutex per string *)
-Definition ev_imethod_locked (s : N) (m : imethod) (seen : bool) : list event :=
-  Lock s :: ev_imethod s m seen ++ [Unlock s].
+Inductive action :=
+| ARun (p : N) (o : vop)          (* a step of running shared Program p *)
+| APrim (v : pval) (o : pop)      (* an operation on a shared ascii/unicode string, symbol, number, ... *)
+| AImp (s : N) (m : imethod).     (* a method of shared imported string s *)
 
-(* (b) sync.Once (sync/once.go: fast path done.Load(); doSlow: m.Lock(); if done.Load()==0 { f(); done.Store(1) };
-   m.Unlock()) around scan; the plain [scanned] field disappears.  Three ways through: *)
-Inductive once_path := OnceFast | OnceSlowNoop | OnceSlowScan.
-Definition ev_length_once (s : N) (w : once_path) : list event :=
-  let D := LOnceDone s in
-  let after := [Rd (LImpU s); Rd (LImpS s)] in
-  match w with
-  | OnceFast => Acc KARd D true :: after
-  | OnceSlowNoop => [Acc KARd D false; Lock s; Acc KARd D true; Unlock s] ++ after
-  | OnceSlowScan => [Acc KARd D false; Lock s; Acc KARd D false; Rd (LImpS s); Wr (LImpU s);
-                     Acc KAWr D true; Unlock s] ++ after
+Definition ev_action (r : nat) (a : action) : list event :=
+  match a with
+  | ARun p o => ev_vop r p o
+  | APrim v o => ev_pop r v o
+  | AImp s m => ev_imethod s m
   end.
+
+Definition events_of_actions (r : nat) (acts : list action) : list event := flat_map (ev_action r) acts.
 
 (* ------------------------------------------------------------------------------------------ *)
 (* Cross-runtime objects (runtime.go:1795-1805 toValue)                                       *)
@@ -334,3 +352,7 @@ Definition to_value (r : nat) (g : gval) : tv_result :=
   | GObject rt => if Nat.eqb rt r then TVOk g else TVTypeError
   | _ => TVOk g
   end.
+
+(* I for values passed directly as arguments of another runtime's Callable (func.go: the arguments are pushed on
+   the callee's stack as they are, no toValue): accepted whatever they are — open finding C16-N2 *)
+Definition call_arg_impl (r : nat) (g : gval) : tv_result := TVOk g.
